@@ -145,7 +145,8 @@ class Sandbox:
 
     def close(self):
         shutil.rmtree(self.top, ignore_errors=True)
-        shutil.rmtree(self.top + ".save", ignore_errors=True)
+        for tag in ("save", "snap"):
+            shutil.rmtree(self.top + "." + tag, ignore_errors=True)
 
     def base_args(self):
         a = [self.bin, "-r", self.root, "-S"]
@@ -183,8 +184,8 @@ class Sandbox:
             return "$D"
         return "OUTSIDE:" + p
 
-    def save(self):
-        d = self.top + ".save"
+    def save(self, tag="save"):
+        d = self.top + "." + tag
         shutil.rmtree(d, ignore_errors=True)
         shutil.copytree(self.dir, d, symlinks=True)
         return d
